@@ -37,8 +37,10 @@ ASSUMPTIONS = [
     'raises (TypeError for None/list/mapping) counts as "no workflow loaded"; the new theorems C20_malformed_weights, '
     'C20_monitor_weights, C20_weights_numbers, C20_used_progress, C20_stage_lists are closed under the global context '
     '(no axiom)',
-    'controller family: the real Controller and CheckStatus are driven by harness/c20_ctl.py (terminations delivered '
-    'through Controller.finishedCheck, nothing is launched; harness/c05_impl.py documents/_new_controller imported '
+    'controller family: the real Controller and CheckStatus are driven by harness/c20_ctl.py (a termination is its two '
+    'real steps - the component state becomes finished, then Controller.finishedCheck is delivered, at once or delayed by '
+    'the case key lag (the order of terminations and notifications is the driver\'s; the postponement of finishedCheck '
+    'while the controller sleeps is not driven) - nothing is launched; harness/c05_impl.py documents/_new_controller imported '
     'read-only); a node counts as active until finishedCheck returned for it; a RESTART from a later stage is the first '
     'Controller.initialise() being called for that stage (c05_impl._new_controller(exp, start)) - the earlier stages '
     'count as completed by an earlier run, nothing is delivered for them (the model marks them: Model.restart_nodes); '
@@ -67,7 +69,9 @@ def _doc(ms, c=10):
     comps = [{'name': 'c%d' % i, 'stage': i, 'command': {'executable': 'ls'}} for i in range(len(ms))]
     sr = {}
     for i, m in enumerate(ms):
-        if m is not None:
+        if m == 'entry':         # the stage has an entry (a status executable), the entry has no weight
+            sr[i] = dict(EXTRAS[i % len(EXTRAS)])
+        elif m is not None:
             sr[i] = {'stage-weight': float(Fraction(m, 1000 * c))}
     return {'components': comps, 'status-report': sr}
 
@@ -159,7 +163,13 @@ def gen_given(rng, n, kind):
         parts = [b - a for a, b in zip([0] + cuts, cuts + [1000])]
         ms = [10 * p for p in parts]
         if kind == 'exact3_some_missing':
-            ms = [None if (m == 0 and rng.random() < 0.7) else m for m in ms]
+            if n >= 3:
+                # some stages weigh nothing: no entry (None), an entry without a weight ('entry') or the explicit 0.0
+                z = rng.randint(1, max(1, n // 3))
+                cuts = sorted(rng.randint(0, 1000) for _ in range(n - z - 1))
+                ms = [10 * (b - a) for a, b in zip([0] + cuts, cuts + [1000])] + [0] * z
+                rng.shuffle(ms)
+            ms = [rng.choice([None, None, 'entry', 'entry', 0]) if m == 0 else m for m in ms]
         return ms
     if kind == 'off3':
         ms = [10 * rng.randint(0, max(1, 2000 // n)) for _ in range(n)]
@@ -219,10 +229,13 @@ def run(ctx):
                 'non-trivial = at least 2 stages and at least one given weight; distinct by (n, given list); '
                 'malformed family: n stages x shape (a malformed entry while the rest sums to one / well-formed numbers '
                 'written as texts, booleans, ints or missing / not summing to one / a negative numeric text / nothing '
-                'usable) x kind of malformed entry (unparsable text, nan or inf as float or text, None/list/mapping), '
+                'usable / some stages with an ENTRY WITHOUT a stage-weight (status executable, arguments, references or '
+                'empty), no entry or 0.0 while the weighted entries sum to one or not) x kind of malformed entry (unparsable text, nan or inf as float or text, None/list/mapping), '
                 'loaded through inject_default_values and then StatusMonitor, or set after loading (the monitor alone); '
                 'controller family: DoWhile over 1-4 stages x 1-2 components per stage x 1-3 iterations x plain stage '
-                'before/after x order of the terminations x stage the run starts at (0 = launch; a later stage = '
+                'before/after x order of the terminations x notifications delivered at once or delayed by up to 1-3 '
+                'terminations (reports inside the window between a termination and its finishedCheck, also across the '
+                'entry of a later stage) x stage the run starts at (0 = launch; a later stage = '
                 'RESTART: before / at the first stage of / after the loop, inside a loop that does not iterate again), '
                 'through the real Controller and the real CheckStatus')
     rng = ctx.rng
@@ -231,7 +244,8 @@ def run(ctx):
     reps = 2 if ctx.tier == 'quick' else 12
     # fixed corpus first (witnesses of the repaired findings F20a, F20b, F20c stay here so that a regression alarms)
     cases = [(10, ms) for ms in ([15000, -5000], [3333, 6667], [3335, 6675], [2000, 3000, 5000], [10000], [None],
-                                 [0, 10000], [6000, None, 4000], [3333, 3333, 3334], [3339, 6669])]
+                                 [0, 10000], [6000, None, 4000], [3333, 3333, 3334], [3339, 6669],
+                                 [7000, 'entry', 3000], ['entry', None, 10000], [7000, 'entry', 2000], ['entry'])]
     cases += [(10 ** 7, [3333333333, 6666666667]), (10 ** 7, [3333333333, 6666666668]), (100, [1, 99999]),
               (1, [200, 300, 500]), (10 ** 9, [1, 10 ** 12 - 1])]
     for n in ns:
@@ -253,7 +267,8 @@ def run(ctx):
     # (launched from stage 0 or RESTARTED from a later stage)
     quick = ctx.tier == 'quick'
     _explore_controller(ctx, CTL_CORPUS + [gen_ctl(rng) for _ in range(3 if quick else 24)]
-                        + [gen_ctl(rng, restart=True) for _ in range(2 if quick else 10)])
+                        + [gen_ctl(rng, restart=True) for _ in range(2 if quick else 10)]
+                        + [gen_ctl(rng, lag=True) for _ in range(2 if quick else 10)])
 
 
 def replay(ctx, path):
@@ -288,13 +303,32 @@ def replay(ctx, path):
 #   ['text', s, m|None]   the text s; float(s) is m/U or raises ValueError (None)
 #   ['nan', s]            s in NAN_FLOATS: that float; otherwise the text s (float(s) is nan or +-inf)
 #   ['bad', s]            'none' | 'list' | 'dict': float() raises TypeError
+#   ['entry', k]          the stage HAS a status-report entry (EXTRAS[k]: a status executable / arguments / references,
+#                         or an empty mapping) WITHOUT the key 'stage-weight' - not the same code path as ['missing']
+#                         (no entry for the stage at all); Model.WEntry
+#   ['numx', m, k]        the float m/U in an entry that also defines EXTRAS[k]
 # (U = 1000 c units per one).  Model type: Weights.Model.wt.
 MISSING = object()
+NOKEY = object()      # the loaded status-report has an entry for the stage, the entry has no 'stage-weight'
 UNPARSABLE = ['n/a', '', ' ', 'high', '0,5', '50%', '1/3', '0.5.0', 'None', 'true', 'tbd', '--', '0x10', '1e', 'O.5',
               'half', '0.5 0.5', '.']
 NAN_FLOATS = ['fnan', 'finf', 'f-inf']
 NAN_TEXTS = ['nan', 'NaN', 'inf', '-inf', 'Infinity', '+infinity', ' nan ', '-Infinity']
 BAD = ['none', 'list', 'dict']
+EXTRAS = [{'executable': '/bin/echo', 'arguments': '0.5'}, {}, {'arguments': '-n 1'},
+          {'references': ['stage0.c0:ref'], 'executable': 'cat', 'arguments': 'stage0.c0:ref'}, {'executable': 'true'}]
+
+
+class _Entry(object):
+    """a status-report entry with other keys; weight MISSING = the entry has no 'stage-weight' key"""
+    def __init__(self, extra, weight):
+        self.extra, self.weight = dict(extra), weight
+
+    def as_dict(self):
+        d = dict(self.extra)
+        if self.weight is not MISSING:
+            d['stage-weight'] = self.weight
+        return d
 
 
 def dec(m, U):
@@ -336,6 +370,10 @@ def raw_of(e, U):
         return bool(e[1])
     if k == 'missing':
         return MISSING
+    if k == 'entry':
+        return _Entry(EXTRAS[e[1] % len(EXTRAS)], MISSING)
+    if k == 'numx':
+        return _Entry(EXTRAS[e[2] % len(EXTRAS)], float(Fraction(e[1], U)))
     if k == 'text':
         return e[1]
     if k == 'nan':
@@ -347,8 +385,10 @@ def raw_of(e, U):
 
 def wt_of(e, U):
     k = e[0]
-    if k == 'num':
+    if k in ('num', 'numx'):
         return '(WNum %s)' % cZ(e[1])
+    if k == 'entry':
+        return 'WEntry'
     if k == 'int':
         return '(WNum %s)' % cZ(e[1] * U)
     if k == 'bool':
@@ -365,13 +405,13 @@ def wt_of(e, U):
 def value_of(e, U):
     """the number a clean entry stands for (units), None for nan / unparsable / bad"""
     k = e[0]
-    if k == 'num':
+    if k in ('num', 'numx'):
         return e[1]
     if k == 'int':
         return e[1] * U
     if k == 'bool':
         return U if e[1] else 0
-    if k == 'missing':
+    if k in ('missing', 'entry'):
         return 0
     if k == 'text':
         return e[2]
@@ -384,6 +424,8 @@ def wt_of_raw(x, U):
     import math
     if x is MISSING:
         return 'WMissing'
+    if x is NOKEY:
+        return 'WEntry'
     if isinstance(x, (bool, int, float)):
         f = float(x)
         if math.isnan(f) or math.isinf(f):
@@ -423,7 +465,7 @@ def render_clean(rng, m, U, fancy):
         return ['num', m]
     r = rng.random()
     if m == 0 and r < 0.35:
-        return ['missing']
+        return ['missing'] if rng.random() < 0.5 else ['entry', rng.randrange(len(EXTRAS))]
     if m in (0, U) and r < 0.55:
         return ['bool', m == U] if rng.random() < 0.5 else ['int', m // U]
     return numeric_text(rng, m, U)
@@ -449,8 +491,24 @@ def gen_malformed(rng, n, direct=False):
     """-> (c, entries, shape).  direct: entries for a status-report set after loading (the monitor alone)"""
     c = rng.choice([1, 10, 10, 100, 10 ** rng.randint(3, 6)])
     U = 1000 * c
-    shapes = ['rest_one'] * 7 + ['clean_forms_one'] * 4 + ['rest_off'] * 4 + ['negative_text'] * 2 + ['all_special'] * 3
+    shapes = (['rest_one'] * 7 + ['clean_forms_one'] * 4 + ['rest_off'] * 4 + ['negative_text'] * 2 + ['all_special'] * 3
+              + ['no_weight_one'] * 4 + ['no_weight_off'] * 2)
     shape = rng.choice(shapes)
+    if shape in ('no_weight_one', 'no_weight_off'):
+        # some stages give NO weight - no entry at all, an entry that only defines the status executable / arguments /
+        # references (or is empty), or the explicit 0.0 - the other stages are weighted (some of their entries define
+        # an executable too) and sum to one / do not
+        k = rng.randint(1, max(1, min(n - 1, 1 + n // 3)))
+        if shape == 'no_weight_one' or n == k:
+            vals = composition(rng, U, n - k)
+        else:
+            vals = [rng.randint(0, max(1, 2 * U // n)) for _ in range(n - k)]
+        ent = [['numx', m, rng.randrange(len(EXTRAS))] if rng.random() < 0.3 else render_clean(rng, m, U, 0.15) for m in vals]
+        for _ in range(k):
+            r = rng.random()
+            ent.append(['entry', rng.randrange(len(EXTRAS))] if r < 0.6 else ['missing'] if r < 0.85 else ['num', 0])
+        rng.shuffle(ent)
+        return c, ent, shape
     if shape == 'rest_one' or shape == 'rest_off':
         k = rng.randint(1, min(n, 3))
         kinds = rng.choice([['unparsable'], ['unparsable'], ['unparsable'], ['nan'], ['bad'] if not direct else ['unparsable', 'bad'],
@@ -498,9 +556,17 @@ MALFORMED_CORPUS = [
     (10, [['text', '1e-3', 10], ['num', 9990]]),
     (10, [['bad', 'none'], ['num', 4000], ['num', 6000]]), (10, [['bad', 'list'], ['num', 10000]]),
     (10, [['num', 10000], ['bad', 'dict']]), (10, [['missing'], ['text', 'n/a', None], ['bool', True]]),
+    # entries WITHOUT a weight (status executable / references only, empty) next to weights that sum to one / do not,
+    # next to a stage without entry, next to a weighted entry with an executable; alone
+    (10, [['num', 7000], ['entry', 0], ['num', 3000]]), (10, [['entry', 0], ['entry', 3], ['num', 10000]]),
+    (10, [['num', 7000], ['entry', 2], ['num', 2000]]), (10, [['numx', 5000, 0], ['entry', 1], ['missing'], ['num', 5000]]),
+    (10, [['entry', 0]]), (1, [['entry', 1], ['text', '0.25', 250], ['numx', 750, 4], ['missing']]),
+    (10, [['entry', 4], ['text', 'n/a', None], ['num', 10000]]),
 ]
 DIRECT_CORPUS = [
     (10, [['missing'], ['num', 5000]]), (10, [['bad', 'none'], ['num', 4000], ['num', 6000]]),
+    (10, [['entry', 0], ['num', 5000]]), (10, [['num', 7000], ['entry', 3], ['num', 3000]]),
+    (10, [['numx', 7000, 0], ['num', 3000]]),
     (10, [['num', 3330], ['num', 3330], ['num', 3330]]), (10, [['num', 15000], ['num', -5000]]),
     (10, [['text', 'n/a', None], ['num', 4000], ['num', 6000]]), (10, [['nan', 'fnan'], ['num', 10000]]),
     (10, [['num', 2000], ['num', 3000], ['num', 5000]]), (10, [['text', '0.4', 4000], ['num', 6000]]),
@@ -530,6 +596,8 @@ def _explore_malformed(ctx, cases, direct):
             for k in sorted(kinds):
                 ctx.count(('direct:' if direct else 'load:') + k)
             ctx.case(['malformed', direct, c, ent], n >= 2 and bool(kinds - {'num', 'missing'}))
+            if 'entry' in kinds and kinds & {'num', 'numx', 'text_numeric', 'int', 'bool'}:
+                ctx.count(('direct:' if direct else 'load:') + 'entry_without_weight_next_to_weighted_entries')
             has_bad = any(e[0] == 'bad' for e in ent)
             given_term = clist([wt_of(e, U) for e in ent], str)
             loaded_term = None
@@ -538,7 +606,10 @@ def _explore_malformed(ctx, cases, direct):
                 concrete = F.FlowIRConcrete(_raw_doc([1.0] + [0.0] * (n - 1)), 'default', {})
                 st = concrete.get_status(return_copy=False)
                 for i, x in enumerate(raws):
-                    if x is MISSING:
+                    if isinstance(x, _Entry):
+                        st[i].clear()
+                        st[i].update(x.as_dict())
+                    elif x is MISSING:
                         st[i].pop('stage-weight', None)
                     else:
                         st[i]['stage-weight'] = x
@@ -559,7 +630,11 @@ def _explore_malformed(ctx, cases, direct):
                             verrs = ['raised']
                         ctx.count('validation_rejects_the_weights' if verrs else 'validation_accepts_the_weights')
                     st = concrete.get_status()
-                    loaded = [st.get(i, {}).get('stage-weight', MISSING) for i in range(n)]
+                    loaded = [MISSING if i not in st else st[i].get('stage-weight', NOKEY) for i in range(n)]
+                    if any(x is MISSING or x is NOKEY for x in loaded):
+                        ctx.fail(dict(case, loaded=[('no entry' if x is MISSING else 'entry without stage-weight' if x is NOKEY
+                                                     else repr(x)) for x in loaded]),
+                                 'a stage of the loaded workflow has no stage weight', [])
                     lt = [wt_of_raw(x, U) for x in loaded]
                     if any(t is None for t in lt):
                         ctx.fail(dict(case, loaded=[repr(x) for x in loaded]),
@@ -588,7 +663,7 @@ def _explore_malformed(ctx, cases, direct):
             if sum(q) != 1:
                 ctx.fail(dict(shown, sum=str(sum(q))), 'the weights in use by the status monitor do not sum to one', [])
             vals = [value_of(e, U) for e in ent]
-            clean = all(v is not None for v in vals) and (not direct or all(e[0] != 'missing' for e in ent))
+            clean = all(v is not None for v in vals) and (not direct or all(e[0] not in ('missing', 'entry') for e in ent))
             if clean and all(v >= 0 for v in vals) and sum(vals) == U:
                 ctx.count('well_formed_weights_summing_to_one')
                 if [x * U for x in q] != vals:
@@ -651,7 +726,8 @@ def _explore_malformed(ctx, cases, direct):
 def _raw_doc(raws):
     comps = [{'name': 'c%d' % i, 'stage': i, 'command': {'executable': 'ls'}} for i in range(len(raws))]
     return {'components': comps,
-            'status-report': dict((i, {'stage-weight': x}) for i, x in enumerate(raws) if x is not MISSING)}
+            'status-report': dict((i, x.as_dict() if isinstance(x, _Entry) else {'stage-weight': x})
+                                  for i, x in enumerate(raws) if x is not MISSING)}
 
 
 def malformed_cases(rng, tier):
@@ -673,7 +749,7 @@ def malformed_cases(rng, tier):
 
 # ----------------------------------------------------------------------------------------------------------
 # The REAL Controller: which stages CheckStatus counts while nodes are added to stages that had finished
-SCHECKER = 'check_rcase'
+SCHECKER = 'check_wincase'
 CTL_CORPUS = [
     # a loop over three stages after a plain stage, two iterations (a stage other than the current one finishes, then
     # the next iteration adds a node to it); the same with two components per stage; a loop over two stages
@@ -687,6 +763,12 @@ CTL_CORPUS = [
     {'pre': 1, 'K': 2, 'width': [1, 1], 'iters': 2, 'post': 0, 'weights': None, 'seed': 4, 'start': 1},
     {'pre': 1, 'K': 2, 'width': [2, 1], 'iters': 1, 'post': 1, 'weights': [100, 200, 300, 400], 'seed': 5, 'start': 3},
     {'pre': 0, 'K': 3, 'width': [1, 1, 1], 'iters': 1, 'post': 0, 'weights': [500, 250, 250], 'seed': 6, 'start': 1},
+    # the WINDOW between a termination and its notification ('lag' = how many components may have reached their
+    # terminal state without Controller.finishedCheck having run for them): the report is taken inside the window, also
+    # with the controller already on a later stage; with a loop that iterates; after a restart
+    {'pre': 2, 'K': 1, 'width': [2], 'iters': 1, 'post': 1, 'weights': [600, 200, 100, 100], 'seed': 7, 'lag': 1},
+    {'pre': 1, 'K': 2, 'width': [1, 2], 'iters': 2, 'post': 1, 'weights': [600, 200, 100, 100], 'seed': 5, 'lag': 2},
+    {'pre': 2, 'K': 2, 'width': [2, 1], 'iters': 1, 'post': 0, 'weights': None, 'seed': 8, 'start': 1, 'lag': 3},
 ]
 
 
@@ -699,8 +781,9 @@ def restart_stages(case):
     return [s for s in range(1, n) if s <= pre or s >= pre + K or case['iters'] == 1]
 
 
-def gen_ctl(rng, restart=None):
-    """restart: None = an ordinary launch (stage 0) or a restart from a later stage, evenly; True = a restart"""
+def gen_ctl(rng, restart=None, lag=None):
+    """restart: None = an ordinary launch (stage 0) or a restart from a later stage, evenly; True = a restart.
+    lag: None = terminations are notified at once or up to 1-3 of them stay un-notified for a while, evenly; True = the latter"""
     K = rng.choice([1, 2, 3, 3, 3, 4])
     pre, post = rng.randint(0, 1), rng.randint(0, 1)
     restart = (rng.random() < 0.5) if restart is None else restart
@@ -717,6 +800,8 @@ def gen_ctl(rng, restart=None):
         if not restart_stages(case):
             case['iters'] = 1
         case['start'] = rng.choice(restart_stages(case))
+    if (rng.random() < 0.5) if lag is None else lag:
+        case['lag'] = rng.choice([1, 1, 2, 3])
     return case
 
 
@@ -746,7 +831,16 @@ def _explore_controller(ctx, cases):
                 ctx.count('controller:restart_skips_stages_with_weight')
         seen_again = False
         was_finished = set()
+        ctx.count('controller:notifications_delayed_by_up_to_%d' % int(case.get('lag') or 0))
+        windows = set()
         for ev in obs['events']:
+            pend = ev.get('pending') or []
+            if pend:
+                windows.add('controller:report_between_a_termination_and_its_notification')
+                if any(st != ev['current'] for st in pend):
+                    windows.add('controller:...with_the_controller_on_another_stage')
+                if any(st in ev['complete'] for st in pend):
+                    windows.add('controller:...the_last_component_of_its_stage')
             shown = {'controller': case, 'event': ev['event'], 'finished': ev['finished'], 'transit': ev['transit'],
                      'total': ev['total']}
             both = sorted(set(ev['finished']) & set(ev['transit']))
@@ -779,9 +873,11 @@ def _explore_controller(ctx, cases):
                 ctx.fail(shown, 'total progress is below the weight %s of the stages completed before the restart'
                          % float(skipped_weight), [])
             terms.append(cpair(cpair(cpair(cZ(start), clist(list(range(n)), cZ)),
-                                     clist([cpair(cZ(a), cbool(b)) for a, b in ev['nodes']], str)),
+                                     clist([cpair(cZ(a), ['NRunning', 'NReported', 'NObserved'][b]) for a, b in ev['nodes']], str)),
                                cpair(clist(ev['finished'], cZ), clist(ev['transit'], cZ))))
             tcases.append(shown)
+        for k in sorted(windows):
+            ctx.count(k)
         if seen_again:
             ctx.count('controller:a_finished_stage_became_active_again')
         ctx.sample({'controller': case, 'events': [[e['event'], e['finished'], e['transit'], e['total']] for e in obs['events']][:12]},
@@ -789,8 +885,8 @@ def _explore_controller(ctx, cases):
     bad = ctx.model_mismatches(HEADER, terms, SCHECKER, chunk=300, name='model_ctl')
     for i in bad:
         ctx.disagree(tcases[i], terms[i][-300:], '', 'C20 stages counted: Controller.get_stages_finished/'
-                     'get_stages_in_transit vs Weights.Model.ctl_finished/ctl_in_transit (stages_finished/'
-                     'stages_in_transit after Model.restart_nodes)')
+                     'get_stages_in_transit vs Weights.Model.win_finished/win_in_transit (ctl_finished/ctl_in_transit of '
+                     'the nodes the controller has OBSERVED, after Model.restart_nodes)')
 
 
 def _explore(ctx, cases, complete=False):
@@ -804,13 +900,19 @@ def _explore(ctx, cases, complete=False):
         for c, ms in cases:
             n = len(ms)
             U = 1000 * c
-            given = [0 if m is None else m for m in ms]
+            given = [0 if (m is None or m == 'entry') else m for m in ms]
             concrete = F.FlowIRConcrete(_doc(ms, c), 'default', {})
             st = concrete.get_status()
+            if any(i not in st or 'stage-weight' not in st[i] for i in range(n)):
+                ctx.fail({'given': ms, 'scale': c, 'status-report': repr(st)[:400]},
+                         'a stage of the loaded workflow has no stage weight', classes_of(ms))
+                continue
+            if any(m == 'entry' for m in ms):
+                ctx.count('entry_without_weight')
             w = [st[i]['stage-weight'] for i in range(n)]
             m_, rec = mon.monitor(concrete, n)
             mw = list(m_.stageWeights)
-            ctx.case([n, c, ms], n >= 2 and any(x is not None for x in ms))
+            ctx.case([n, c, ms], n >= 2 and any(x is not None and x != 'entry' for x in ms))
             ctx.count('scale_c=%s' % ('10^%d' % (len(str(c)) - 1)))
             ctx.count('n<=10' if n <= 10 else ('n<=60' if n <= 60 else 'n>60'))
             # the weights as the decimal numbers they print as, in units 1/(1000c)
